@@ -5,14 +5,16 @@ and keep it under /verif/seeded/Cxx-k/ with the outcome recorded in meta.json.""
 import json, os, shutil, subprocess, sys, glob
 P, K = sys.argv[1], sys.argv[2]
 props = [P] + sys.argv[3:]
-O = "/tmp/seed/out/%s" % P
+SR = os.environ.get("SEED_ROOT", "/tmp/seed")
+TAG = os.environ.get("SEED_TAG", "")
+O = "%s/out/%s" % (SR, P)
 r = subprocess.run(["/verif/tools/seed_confirm.sh", P, K], capture_output=True, text=True)
 print(r.stdout.strip()[:600])
 if r.returncode != 0:
     print("NOT CONFIRMED", r.stderr[-300:]); sys.exit(1)
 r2 = subprocess.run(["/verif/tools/seed_run.sh", "%s/patch%s.diff" % (O, K)] + props, capture_output=True, text=True)
 print(r2.stdout.strip())
-D = "/verif/seeded/%s-%s" % (P, K)
+D = "/verif/seeded/%s-%s%s" % (P, TAG, K)
 os.makedirs(D, exist_ok=True)
 shutil.copy("%s/patch%s.diff" % (O, K), D + "/patch.diff")
 for f in glob.glob("%s/demo%s.*" % (O, K)):
